@@ -120,15 +120,16 @@ func DistanceLineToLine(line1Start, line1End, line2Start, line2End geom.Coord) f
 		s = (b*e - c*d) / denom
 		t = (a*e - b*d) / denom
 	}
-	switch {
-	case s < 0:
-		return DistancePointToLine(line1Start, line2Start, line2End)
-	case s > 1:
-		return DistancePointToLine(line1End, line2Start, line2End)
-	case t < 0:
-		return DistancePointToLine(line2Start, line1Start, line1End)
-	case t > 1:
-		return DistancePointToLine(line2End, line1Start, line1End)
+	if s < 0 || s > 1 || t < 0 || t > 1 {
+		/**
+		 * The closest points are not both in the interiors of the segments, so one of
+		 * them is an endpoint: the result is the smallest endpoint to segment distance.
+		 */
+		return min(
+			DistancePointToLine(line1Start, line2Start, line2End),
+			DistancePointToLine(line1End, line2Start, line2End),
+			DistancePointToLine(line2Start, line1Start, line1End),
+			DistancePointToLine(line2End, line1Start, line1End))
 	}
 	/**
 	 * The closest points are in interiors of segments,
